@@ -319,6 +319,13 @@ impl BlockWrite for RollingWriter {
                     let file = self.directory.open_file(&next_file_number)?;
                     (next_file_number, file)
                 } else {
+                    // `wal-18446744073709551615` is a name we accept: no file can come after it.
+                    if self.file_number.file_number() == u64::MAX {
+                        return Err(io::Error::new(
+                            io::ErrorKind::Other,
+                            "wal file number overflow",
+                        ));
+                    }
                     let next_file_number = self.directory.files.inc(&self.file_number);
                     let file = create_file(&self.directory.dir, &next_file_number)?;
                     (next_file_number, file)
